@@ -1217,6 +1217,33 @@ func (pc *PeerConnection) SetRemoteDescription(desc SessionDescription) error {
 		return err
 	}
 
+	// Whatever can reject the description by looking at the description alone is checked before
+	// setDescription applies it, so that a rejected description leaves the negotiation state untouched.
+	weOffer := desc.Type == SDPTypeAnswer
+	detectedPlanB := descriptionIsPlanB(&desc, pc.log)
+	if pc.configuration.SDPSemantics != SDPSemanticsUnifiedPlan {
+		detectedPlanB = descriptionPossiblyPlanB(&desc)
+	}
+	if !weOffer && !detectedPlanB {
+		for _, media := range desc.parsed.MediaDescriptions {
+			if getMidValue(media) == "" {
+				return errPeerConnRemoteDescriptionWithoutMidValue
+			}
+		}
+	}
+
+	iceDetails, err := extractICEDetails(desc.parsed, pc.log)
+	if err != nil {
+		return err
+	}
+
+	var fingerprint, fingerprintHash string
+	if !isRenegotiation {
+		if fingerprint, fingerprintHash, err = extractFingerprint(desc.parsed); err != nil {
+			return err
+		}
+	}
+
 	if err := pc.setDescription(&desc, stateChangeOpSetRemote); err != nil {
 		return err
 	}
@@ -1246,12 +1273,6 @@ func (pc *PeerConnection) SetRemoteDescription(desc SessionDescription) error {
 
 	var transceiver *RTPTransceiver
 	localTransceivers := append([]*RTPTransceiver{}, pc.GetTransceivers()...)
-	detectedPlanB := descriptionIsPlanB(pc.RemoteDescription(), pc.log)
-	if pc.configuration.SDPSemantics != SDPSemanticsUnifiedPlan {
-		detectedPlanB = descriptionPossiblyPlanB(pc.RemoteDescription())
-	}
-
-	weOffer := desc.Type == SDPTypeAnswer
 
 	if !weOffer && !detectedPlanB { //nolint:nestif
 		for _, media := range pc.RemoteDescription().parsed.MediaDescriptions {
@@ -1329,11 +1350,6 @@ func (pc *PeerConnection) SetRemoteDescription(desc SessionDescription) error {
 		}
 	}
 
-	iceDetails, err := extractICEDetails(desc.parsed, pc.log)
-	if err != nil {
-		return err
-	}
-
 	if isRenegotiation && pc.iceTransport.haveRemoteCredentialsChange(iceDetails.Ufrag, iceDetails.Password) {
 		// An ICE Restart only happens implicitly for a SetRemoteDescription of type offer
 		if !weOffer {
@@ -1371,11 +1387,6 @@ func (pc *PeerConnection) SetRemoteDescription(desc SessionDescription) error {
 	}
 
 	remoteIsLite := isIceLiteSet(desc.parsed)
-
-	fingerprint, fingerprintHash, err := extractFingerprint(desc.parsed)
-	if err != nil {
-		return err
-	}
 
 	iceRole := ICERoleControlled
 	// If one of the agents is lite and the other one is not, the lite agent must be the controlled agent.
